@@ -1,5 +1,6 @@
 import Dagrt.Model.StepLoop
 import Dagrt.Props.C02
+import Dagrt.Proofs.BridgeProofs
 /-!
 # C01 — interpreter and generated Python stepper both implement the written program
 
@@ -23,10 +24,16 @@ lengths and end times): the order in which a back end executes the emitted state
 matter — per step and for whole runs — so interpreter and generated code, which differ ONLY in that
 order in this model, produce the same events and the same states, and both equal program order of
 the flat statements.  `seq_eq_flat_straightline_partial`: for programs without `if_`/`else_` the
-flat program order IS the written program.  The general bridge (flat guarded statements = blocks
-entered on their entry condition; needs freshness of the `<cond>` flags, C02.fresh_*) is NOT proved
-yet; it is checked differentially on every run (the Lean reference is the block semantics, the
-real back ends execute the flat statements).
+flat program order IS the written program.  `seq_eq_flat` / `backend_implements_program`: the
+general bridge — for every program the builder accepts whose own statements and conditions do not
+mention the builder's `<cond>` flag names, started from a store in which those flags are unset, the
+flat guarded statements in ANY admissible order leave in every variable other than the flags
+(including `<exec>`: events and status) exactly what carrying out the builder calls block by block
+leaves (a block runs iff all enclosing entry conditions held; `else_` is the negation of the `if_`
+closed immediately before).  The proof is a simulation (`Proofs/BridgeProofs.lean`, `Sim`) whose
+invariant says that each flag on the builder's condition stack currently evaluates to the entry
+condition of its block, that flags not handed out yet are unset, and that no user statement
+touches a flag.
 -/
 namespace Dagrt.C01
 open Dagrt Dagrt.Sem Dagrt.Builder Dagrt.StepLoop
@@ -207,5 +214,163 @@ theorem backend_implements_straightline_partial (F : Funs) (ks : List Kind) (π 
     (h : Admissible (ks.map BOp.stmt) π) :
     flatExec F (flatStmts (ks.map BOp.stmt)) π σ = (seqExec F (ks.map BOp.stmt) σ).σ := by
   rw [body_order_irrelevant F _ π σ h, seq_eq_flat_straightline_partial]
+
+/-! ### the general bridge: flat guarded statements = the written blocks -/
+
+/-- **C01, program order = written program** (all programs the builder accepts, all stores with the
+    flag names unset, all function interpretations).  Off the builder's own `<cond>` flags, executing
+    the emitted guarded statements in program order leaves exactly what carrying out the builder
+    calls block by block leaves — events, status and every variable. -/
+theorem seq_eq_flat (F : Funs) (ops : List BOp) (σ : Store)
+    (hbuilt : (Builder.run ops).failed = none)
+    (hok : ∀ op ∈ ops, OpOK op)
+    (hunset : ∀ x, IsFlag x → σ x = .val .none) :
+    (seqExec F ops σ).failed = false ∧
+    ∀ x, ¬ IsFlag x → flatExec F (flatStmts ops) (progOrder ops) σ x = (seqExec F ops σ).σ x := by
+  have sim0 : Sim F σ BState.init σ ⟨σ, [], none, false⟩ :=
+    ⟨rfl, rfl, fun _ _ => rfl, All2.nil, Or.inl ⟨rfl, rfl⟩,
+      fun c hc => by rcases hc with h | h <;> simp [BState.init] at h,
+      fun x hx _ => hunset x hx, rfl⟩
+  obtain ⟨σf, sim⟩ := sim_run F σ ops BState.init σ _ sim0 hok hbuilt
+  refine ⟨sim.sfail, fun x hx => ?_⟩
+  unfold progOrder
+  rw [flat_range_eq_fold]
+  have := sim.flat
+  unfold flatStmts Builder.run
+  unfold runFrom at this
+  rw [← this]
+  exact sim.agree x hx
+
+/-- **C01, both back ends implement the written program**: whatever admissible order a back end
+    picks for the emitted statements (C04: the interpreter's controller; C05: the lowering), one
+    step body leaves what the written program says, off the flags. -/
+theorem backend_implements_program (F : Funs) (ops : List BOp) (π : List Nat) (σ : Store)
+    (hπ : Admissible ops π)
+    (hbuilt : (Builder.run ops).failed = none)
+    (hok : ∀ op ∈ ops, OpOK op)
+    (hunset : ∀ x, IsFlag x → σ x = .val .none) :
+    ∀ x, ¬ IsFlag x → flatExec F (flatStmts ops) π σ x = (seqExec F ops σ).σ x := by
+  intro x hx
+  rw [body_order_irrelevant F ops π σ hπ]
+  exact (seq_eq_flat F ops σ hbuilt hok hunset).2 x hx
+
+/-- the events and the status of a step are among the things the two agree on -/
+theorem backend_events_eq_program (F : Funs) (ops : List BOp) (π : List Nat) (σ : Store)
+    (hπ : Admissible ops π)
+    (hbuilt : (Builder.run ops).failed = none)
+    (hok : ∀ op ∈ ops, OpOK op)
+    (hunset : ∀ x, IsFlag x → σ x = .val .none) :
+    (flatExec F (flatStmts ops) π σ).log = (seqExec F ops σ).σ.log ∧
+    (flatExec F (flatStmts ops) π σ).status = (seqExec F ops σ).σ.status := by
+  have := backend_implements_program F ops π σ hπ hbuilt hok hunset EXEC exec_not_flag
+  simp [Store.log, Store.status, this]
+
+theorem flag_length {x : Name} (h : IsFlag x) : 6 ≤ x.length := by
+  obtain ⟨k, rfl⟩ := h
+  cases k with
+  | zero => decide
+  | succ k =>
+    have h7 : ("<cond>_" : String).length = 7 := by decide
+    simp [genName, String.length_append]
+    omega
+
+theorem flag_not_persistent {x : Name} (h : IsFlag x) : isPersistent x = false := by
+  obtain ⟨k, rfl⟩ := h
+  cases k with
+  | zero => decide +kernel
+  | succ k =>
+    have h2 : ("<state>" : String).toList = ['<','s','t','a','t','e','>'] := by decide
+    have h3 : ("<p>" : String).toList = ['<','p','>'] := by decide
+    have hl : ∀ n : String, n.length < 7 → ("<cond>" ++ "_" ++ toString k == n) = false := by
+      intro n hn
+      rw [beq_eq_false_iff_ne]
+      intro h
+      have := congrArg String.length h
+      have h7 : ("<cond>_" : String).length = 7 := by decide
+      simp [String.length_append] at this
+      omega
+    simp only [isPersistent, genName, hl "<t>" (by decide), hl "<dt>" (by decide), Bool.false_or]
+    simp [hasPrefix, String.toList_append, h2, h3, List.isPrefixOf]
+
+theorem startStep_flags_unset (σ : Store) (x : Name) (h : IsFlag x) : startStep σ x = .val .none := by
+  have hne : x ≠ EXEC := by rintro rfl; exact exec_not_flag h
+  simp [startStep, Store.set, hne, persist, flag_not_persistent h]
+
+/-- what `run` makes of a step only looks at the events, the status and the persistent names -/
+theorem finishStep_congr (ph : Phase) (b b' : Boxed) (h : ∀ x, ¬ IsFlag x → b.σ x = b'.σ x) :
+    finishStep ph b = finishStep ph b' := by
+  have hp : persist b.σ = persist b'.σ := by
+    funext x
+    unfold persist
+    cases hx : isPersistent x
+    · rfl
+    · simp only [cond_true]
+      exact h x (fun hf => by rw [flag_not_persistent hf] at hx; cases hx)
+  have he := h EXEC exec_not_flag
+  have hl : b.σ.log = b'.σ.log := by simp [Store.log, he]
+  have hs : b.σ.status = b'.σ.status := by simp [Store.status, he]
+  unfold finishStep
+  simp only [hp, hl, hs]
+
+/-- a program a back end can be compared with the written program on: the builder accepted it and
+    its own statements and conditions stay off the builder's flag names -/
+def WellBuilt (ops : List BOp) : Prop :=
+  (Builder.run ops).failed = none ∧ ∀ op ∈ ops, OpOK op
+
+/-- **C01, one step**: a back end whose scheduler picks admissible orders takes exactly the step the
+    written program describes — same events, same outcome, same persistent state, same next phase -/
+theorem step_backend_eq_written (F : Funs) (ps : List Phase) (sched : Phase → List Nat)
+    (hs : ∀ ph ∈ ps, Admissible ph.ops (sched ph)) (hw : ∀ ph ∈ ps, WellBuilt ph.ops) (s : RunState) :
+    stepFlat F sched ps s = stepRef F ps s := by
+  unfold stepFlat stepRef stepWith
+  cases hf : findPhase ps s.next with
+  | none => rfl
+  | some ph =>
+    have hm : ph ∈ ps := List.mem_of_find?_eq_some hf
+    simp only
+    apply finishStep_congr
+    intro x hx
+    exact backend_implements_program F ph.ops (sched ph) (startStep s.σ) (hs ph hm) (hw ph hm).1 (hw ph hm).2
+      (startStep_flags_unset s.σ) x hx
+
+/-- **C01, whole runs**: … and therefore produces exactly the run of the written program, for every
+    end time, step limit and number of loop passes -/
+theorem run_backend_eq_written (F : Funs) (ps : List Phase) (sched : Phase → List Nat)
+    (hs : ∀ ph ∈ ps, Admissible ph.ops (sched ph)) (hw : ∀ ph ∈ ps, WellBuilt ph.ops)
+    (tEnd : Option Int) (maxSteps : Option Nat) (fuel n : Nat) (s : RunState) :
+    runLoop (stepFlat F sched ps) tEnd maxSteps fuel n s = runLoop (stepRef F ps) tEnd maxSteps fuel n s := by
+  have : stepFlat F sched ps = stepRef F ps := funext (step_backend_eq_written F ps sched hs hw)
+  rw [this]
+
+/-- the hypotheses of the bridge are satisfiable by a program with an `if_` / `else_` pair whose
+    two branches assign different values (a store with everything unset but `a`) -/
+example :
+    let ops : List BOp :=
+      [.ifBegin (.var "a"), .stmt (.assign "y" none (.const (.int 1)) []), .ifEnd,
+       .elseBegin, .stmt (.assign "y" none (.const (.int 2)) []), .elseEnd]
+    (Builder.run ops).failed = none ∧ (∀ op ∈ ops, OpOK op) ∧
+    (∀ x, IsFlag x → (fun n => if n = "a" then Cell.val (.bool false) else .val .none : Store) x = .val .none) := by
+  refine ⟨by decide +kernel, ?_, ?_⟩
+  · intro op hop
+    simp only [List.mem_cons, List.mem_nil_iff, or_false] at hop
+    rcases hop with rfl | rfl | rfl | rfl | rfl | rfl
+    · intro x hx; have := flag_length hx
+      simp only [depVars, List.mem_singleton]
+      rintro rfl; revert this; decide
+    · intro x hx; have h6 := flag_length hx
+      have hne : x ≠ "y" := by rintro rfl; revert h6; decide
+      have hne2 : x ≠ "<exec>" := by rintro rfl; exact exec_not_flag hx
+      simp [effR, effW, declReads, declWrites, depVars, loopVars, Kind.isAssignment, hne, hne2, EXEC]
+    · trivial
+    · trivial
+    · intro x hx; have h6 := flag_length hx
+      have hne : x ≠ "y" := by rintro rfl; revert h6; decide
+      have hne2 : x ≠ "<exec>" := by rintro rfl; exact exec_not_flag hx
+      simp [effR, effW, declReads, declWrites, depVars, loopVars, Kind.isAssignment, hne, hne2, EXEC]
+    · trivial
+  · intro x hx
+    have := flag_length hx
+    have hne : x ≠ "a" := by rintro rfl; revert this; decide
+    simp [hne]
 
 end Dagrt.C01
